@@ -6,7 +6,9 @@
 From Coq Require Import ZArith List Lia.
 From Verif Require Import Base.Mach Base.Field Gen.FieldConsts Gen.PoseidonConsts Gen.PoseidonImpl
   Model.Fp Model.Poseidon Model.PoseidonImplModel Model.Sponge Model.Challenger
-  Proofs.Poseidon Proofs.PoseidonMds Proofs.PoseidonImpl Proofs.Sponge Proofs.Challenger.
+  Proofs.Poseidon Proofs.PoseidonMds Proofs.PoseidonImpl Proofs.Sponge Proofs.Challenger
+  Proofs.PoseidonSpecBridge.
+From Verif Require Model.PoseidonSpec.
 Import ListNotations.
 Open Scope Z_scope.
 
@@ -56,6 +58,17 @@ Theorem C13_mds_layer_impl_correct : forall s : list Z, length s = 12%nat -> For
          + nth r MDS_MATRIX_DIAG 0 * nth r s 0) mod ORDER.
 Proof. exact mds_layer_impl_correct. Qed.
 
+(* the trait-default mds_layer of poseidon.rs (u128 accumulation in mds_row_shf; overridden for
+   Goldilocks): no overflow, the sum stays below 2^96 so that `(sum >> 64) as u32` does not
+   truncate, and the result is MDS * state - a property of the regenerated MDS constants *)
+Theorem C13_mds_layer_generic_correct : forall s : list Z, length s = 12%nat -> Forall u64 s ->
+  exists o, mds_layer_generic_impl s = Some o /\ length o = 12%nat /\ Forall u64 o /\
+    forall r, (r < 12)%nat ->
+      nth r o 0 mod ORDER
+      = (fold_right Z.add 0 (map (fun i => nth ((i + r) mod 12) s 0 * nth i MDS_MATRIX_CIRC 0) (seq 0 12))
+         + nth r MDS_MATRIX_DIAG 0 * nth r s 0) mod ORDER.
+Proof. exact mds_layer_generic_correct. Qed.
+
 (* the whole implementation-level permutation, on every 12-tuple of u64 representations
    (canonical or not): it never fails and its canonicalised output is the textbook permutation
    of the canonicalised input *)
@@ -63,6 +76,26 @@ Theorem C13_poseidon_impl_eq_spec : forall s : list Z, length s = 12%nat -> Fora
   exists o, poseidon_impl s = Some o /\ Forall u64 o /\
             map (fun z => z mod ORDER) o = poseidon_Z (map (fun z => z mod ORDER) s).
 Proof. exact poseidon_impl_eq_spec. Qed.
+
+(* ------------------------------------------------------------------ the shared specification *)
+(* Model/PoseidonSpec.v (the executable permutation and Poseidon sponge used by the Merkle / FRI /
+   PLONK verifier models) is the same function as the C13 textbook permutation, so the
+   implementation-level permutation computes exactly PoseidonSpec.poseidon *)
+Theorem C13_shared_spec_is_poseidon_fp : forall s : list Fp,
+  Verif.Model.PoseidonSpec.poseidon s = poseidon_fp s.
+Proof. exact poseidonspec_eq_poseidon_fp. Qed.
+
+Theorem C13_poseidon_impl_eq_shared_spec : forall s : list Z, length s = 12%nat -> Forall u64 s ->
+  exists o, poseidon_impl s = Some o /\ Forall u64 o /\
+            map toFp o = Verif.Model.PoseidonSpec.poseidon (map toFp s).
+Proof. exact poseidon_impl_eq_poseidonspec. Qed.
+
+Theorem C13_shared_sponge_is_sponge :
+  (forall l, Verif.Model.PoseidonSpec.p_hash_no_pad l = poseidon_hash_no_pad l) /\
+  (forall x y, Verif.Model.PoseidonSpec.p_two_to_one x y = poseidon_two_to_one x y) /\
+  (forall l, Verif.Model.PoseidonSpec.p_hash_or_noop l = poseidon_hash_or_noop l) /\
+  (forall l, Verif.Model.PoseidonSpec.p_hash_pad l = poseidon_hash_pad l).
+Proof. exact (conj p_hash_no_pad_eq (conj p_two_to_one_eq (conj p_hash_or_noop_eq p_hash_pad_eq))). Qed.
 
 (* ------------------------------------------------------------------ sponge *)
 Section WithPermutation.
